@@ -171,6 +171,7 @@ type Reply struct {
 	Headers []*vhdr.Header // for ok / status
 	Raw     []byte         // for garbage
 	Status  int32          // for status
+	Delay   time.Duration  // the answer is written this much later (arrival order of concurrent sub-requests)
 }
 
 // Scripted is a peer speaking header-ex with scripted answers. Every request is stamped with a global
@@ -284,6 +285,9 @@ func (p *Scripted) handle(s network.Stream) {
 		r = script(n, &req)
 	} else {
 		r = Reply{Kind: "notfound"}
+	}
+	if r.Delay > 0 {
+		time.Sleep(r.Delay)
 	}
 	switch r.Kind {
 	case "ok", "status":
